@@ -64,7 +64,11 @@ func (r *Run) ExploreSchedules(scs []ScheduleScenario) {
 				// small counter-examples first without re-running every level
 				continue
 			}
+			v0 := r.Violations()
 			e := &vsched.Explorer{Bound: b, Opt: sc.Opt, Shard: r.Shard, Shards: r.Of, MaxExecs: sc.MaxExecs}
+			// a new (unlisted) violation ends the exploration of this scenario: the
+			// check fails anyway and broken code may make every execution slow
+			e.Stop = func() bool { return r.Violations() > v0 }
 			found := 0
 			e.Explore(sc.Make, func(f vsched.Found) {
 				found++
@@ -101,6 +105,10 @@ func (r *Run) ExploreSchedules(scs []ScheduleScenario) {
 			}
 			if e.MaxThreads > maxThreads {
 				maxThreads = e.MaxThreads
+			}
+			if e.Stopped {
+				r.Cap(fmt.Sprintf("%s: exploration stopped after a new violation at bound %d", sc.Name, b))
+				break
 			}
 			if e.Capped {
 				r.Cap(fmt.Sprintf("%s: exploration capped at bound %d (%d executions)", sc.Name, b, e.Executions))
